@@ -152,7 +152,22 @@ class PathCtx(object):
         return 0
 
     # ---- obligations ------------------------------------------------------
-    def oblige(self, name, goal, meta=None, kind="post", assume_after=True):
+    def oblige(self, name, goal, meta=None, kind="post", assume_after=True, using=None):
+        """using: prove the goal from these hypotheses only (each of which must already follow from the path
+        condition: it is checked first); keeps hard nonlinear queries small."""
+        if using is not None and not self.pure:
+            for i, h in enumerate(using):
+                self.oblige("%s.using-%d" % (name, i), h, meta, kind=kind, assume_after=False)
+            if isinstance(goal, bool):
+                goal = z3.BoolVal(goal)
+            m = dict(meta or {})
+            if self.fn_stack:
+                m.setdefault("in", self.fn_stack[-1])
+            hyps = [h for h in using if not isinstance(h, bool)]
+            self.obligations.append(Obligation(name, hyps, goal, m, list(self.script[:self.pos]), kind))
+            if assume_after and as_const_bool(goal) is None:
+                self.pc.append(goal)
+            return
         if self.pure:
             # obligations whose goal is trivially true are fine in pure mode
             c = as_const_bool(goal) if not isinstance(goal, bool) else goal
